@@ -24,6 +24,8 @@ def run(ck):
     ck.trusted += ['Coq 8.16.1 kernel + vm_compute', 'recording RFM subclass', 'bitwise comparison']
     ck.assumptions += ['float64 inputs hold float32-representable values (same abstract data)', 'equality of predictions across representations is observed']
     ck.check_theorems()
+    from harness import predops
+    predops.check_translation(ck)
     rng = np.random.default_rng(ck.seed + 2020)
     cases = []
     nconf = ck.n(8, 40)
